@@ -404,7 +404,7 @@ def run(ctx):
     run_bids(ctx)
     scratch = tempfile.mkdtemp(prefix='verif-c20-')
     try:
-        n = ctx.n(40, 150)
+        n = ctx.n(40, 800)
         for it in range(n):
             if ctx.out_of_time():
                 ctx.notes.append(f'time budget reached after {it} rounds')
